@@ -754,6 +754,12 @@ class VenomCompiler:
                 stack.poke(0, ret)
             else:
                 stack.poke(depth, ret)
+            if ret not in next_liveness:
+                # a phi whose result is never used survives only when dead-code removal is
+                # disabled.  pop it like any other dead output: left in the stack model under
+                # its name it is neither in the liveness layout nor a _DeadStackItem, and the
+                # dead-prefix bookkeeping mistakes it for a live item.
+                self.popmany(assembly, [ret], stack)
             return apply_line_numbers(inst, assembly)
 
         if opcode == "offset":
